@@ -224,7 +224,8 @@ def oracle(ctx, kind, p):
                             allow_empty_target=True)
             s = penman.format(penman.Tree(t), indent=rng.choice([None, -1, 0, 2]))
             if k >= 2:
-                s = S.corrupt_text(rng, s)
+                s = (S.insert_at_token_boundary(rng, s, rng.choice([1, 1, 2])) if p['i'] % 8 >= 6
+                     else S.corrupt_text(rng, s))
             if rng.random() < 0.3:
                 s = '# ::id %d ::x y\n' % p['i'] + s + '\n\n' + s
             elif rng.random() < 0.4:
